@@ -4,11 +4,14 @@
 import glob, importlib.util, json, os, subprocess
 V = os.path.dirname(os.path.dirname(os.path.abspath(__file__)))
 props = [json.loads(l)["id"] for l in open(os.path.join(V, "properties.jsonl")) if l.strip()]
+# a property is claimed only once its check has been verified (by the orchestrator) to pass
+# on the unchanged tree and to catch mutants: tools/claimed.json
+CLAIMED = set(json.load(open(os.path.join(V, "tools", "claimed.json"))))
 checks = []
 claimed = set()
 for pid in props:
     path = os.path.join(V, "checks", pid + ".py")
-    if not os.path.exists(path):
+    if not os.path.exists(path) or pid not in CLAIMED:
         continue
     spec = importlib.util.spec_from_file_location("c" + pid, path)
     m = importlib.util.module_from_spec(spec); spec.loader.exec_module(m)
